@@ -35,10 +35,14 @@ type mixOpts struct {
 	v1         float64
 	wBulk      int     // bulks of two or three elements, atomic or not
 	pristine   float64 // probability that the concurrent phase starts on a ledger without any write
+	forceSync  bool    // the ledger hashes its logs synchronously whatever the knobs drew
 }
 
 func mixedScenario(r *RNG, prop, name string, o mixOpts, checks ...string) *Scenario {
 	sc := &Scenario{Property: prop, Profile: name, Knobs: randomKnobs(r), Checks: checks}
+	if o.forceSync {
+		sc.Knobs.HashLogs = "SYNC"
+	}
 	g := &gen{r: r, sc: sc}
 	sc.Setup = g.baseSetup("l1", o.funds, o.extraTx)
 	nc := o.clients[0] + r.Intn(o.clients[1]-o.clients[0]+1)
